@@ -13,7 +13,7 @@ What the C11 model and theorems need that is written as a literal in the source:
 """
 import ast
 import os
-from ..translate import parse, find_func, func_defaults, lstr
+from ..translate import seg, parse, find_func, func_defaults, lstr
 
 NAME = "HaarConsts"
 
@@ -53,11 +53,11 @@ def _haar_levels(fn, src, o):
             raise ValueError("haarSeg: non-natural step / window")
         rows.append(f"({lv}, {int(h)}, {int(w)})")
     o.defn("HAAR_LEVEL_TABLE", "List (Nat × Nat × Nat)", "[" + ", ".join(rows) + "]",
-           f"haarSeg level loop `for level in {ast.get_source_segment(src, loop.iter)}`: "
-           f"(level, stepHalfSize = {ast.get_source_segment(src, step)}, "
-           f"UnifyLevels window = {ast.get_source_segment(src, window)})")
+           f"haarSeg level loop `for level in {seg(src, loop.iter)}`: "
+           f"(level, stepHalfSize = {seg(src, step)}, "
+           f"UnifyLevels window = {seg(src, window)})")
     # which convolution feeds the peak finder / which array the threshold is applied to
-    calls = [ast.get_source_segment(src, n) for n in ast.walk(loop)
+    calls = [seg(src, n) for n in ast.walk(loop)
              if isinstance(n, ast.Call) and getattr(n.func, "id", "") in ("HaarConv", "FindLocalPeaks", "FDRThres")]
     o.defn("HAAR_LOOP_CALLS", "List String", "[" + ", ".join(lstr(c) for c in calls) + "]",
            "HaarConv / FindLocalPeaks / FDRThres calls of the level loop, in source order")
@@ -86,8 +86,8 @@ def _fdr(fn, src, o):
             bumps.append(n.value.right)
     if len(bumps) != 1:
         raise ValueError("FDRThres: expected exactly one `T = x_sorted[0] + eps`")
-    o.flt("HAAR_FDR_EPS", bumps[0].value, ast.get_source_segment(src, bumps[0]), "FDRThres: T = x_sorted[0] + eps when no p-value passes")
-    cmps = [ast.get_source_segment(src, n) for n in ast.walk(fn) if isinstance(n, ast.Compare)]
+    o.flt("HAAR_FDR_EPS", bumps[0].value, seg(src, bumps[0]), "FDRThres: T = x_sorted[0] + eps when no p-value passes")
+    cmps = [seg(src, n) for n in ast.walk(fn) if isinstance(n, ast.Compare)]
     o.defn("HAAR_FDR_COMPARES", "List String", "[" + ", ".join(lstr(c) for c in cmps) + "]", "comparisons in FDRThres, in walk order")
 
 
@@ -123,7 +123,7 @@ def _hmm(fn, src, o):
             if getattr(d.func, "attr", "") != "NormalDistribution":
                 raise ValueError("hmm_get_model: not a NormalDistribution")
             means.append(rat(float(ast.literal_eval(d.args[0]))))
-            decs.append(dec(ast.get_source_segment(src, d.args[0])))
+            decs.append(dec(seg(src, d.args[0])))
             if getattr(d.args[1], "id", "") != "stdev":
                 raise ValueError("hmm_get_model: second argument is not the common stdev")
             fr = [k.value for k in d.keywords if k.arg == "frozen"]
@@ -148,6 +148,6 @@ def extract(repo, o):
                     thr = v
     if thr is None:
         raise ValueError("do_segmentation: default threshold table has no 'haar' entry")
-    o.flt("HAAR_DEFAULT_Q", ast.literal_eval(thr), ast.get_source_segment(src, thr), "do_segmentation: default threshold (FDR q) of method 'haar'")
+    o.flt("HAAR_DEFAULT_Q", ast.literal_eval(thr), seg(src, thr), "do_segmentation: default threshold (FDR q) of method 'haar'")
     tree, src = parse(os.path.join(repo, "cnvlib/segmentation/hmm.py"))
     _hmm(find_func(tree, "hmm_get_model"), src, o)
